@@ -101,6 +101,18 @@ def run_enc_property(prop, tier, replay):
     # text path (through assemble()) and, for C02, the reverse direction over all 65536 halfwords
     tp = textpath.run(prop, tier, rep)
     nontrivial += tp
+    if prop == 'C01':
+        # whole programs: constants / register aliases / every operand spelling through all passes
+        from harness import layout_check
+        progres = layout_check.collect(tier, 400 if tier == 'quick' else 6000, tag=1)
+        for r in progres:
+            rep.evaluations += 1
+            for p, compress, msg in r['problems']:
+                if p == 'C01':
+                    rep.violation('{} (compress={}): {}'.format(p, compress, msg),
+                                  dict(case=dict(program=r['src'], lines=r['lines'], compress=compress, problem=msg, property=p)))
+        rep.count('programs_through_pipeline', len(progres))
+        nontrivial += len(set(r['nontrivial'] for r in progres))
     rep.cov['model_vs_impl_disagreements'] = tot_mismatch
     rep.cov['exhaustive'] = prop == 'C02'
     rep.assumptions += [
